@@ -318,6 +318,10 @@ def revert_facts(sc, b):
                     continue
                 if not wt.is_versioned(p):
                     continue        # revert works on iter_changes of versioned entries
+                if sc.get("premerge") and p.endswith((".THIS", ".OTHER", ".BASE")):
+                    # helper files of the earlier merge: WorkingTree.revert resolves the conflicts it
+                    # reverted and that removes their helpers - not a decision of _alter_files
+                    continue
                 tpath = InterTree.get(target, wt).find_source_path(p)
                 bpath = InterTree.get(basis, wt).find_source_path(p)
                 tkind = target.kind(tpath) if tpath is not None else None
